@@ -19,7 +19,7 @@
                            (under it [RemoveE1] is exactly [IndexE1]'s bound: [RemoveE1_of_clean]).
 
     Main results:
-    - [ugi_exec]               the UpdateGlobalIndex tree of C19 has at most 32 messages;
+    - [ugi_exec]               the UpdateGlobalIndex tree of C19 has at most 40 messages;
     - [run_trace_shift], [run_trace_forall]  [run] only appends to the trace it is given; a stack
                                invariant constraining the head of the stack constrains the whole trace;
     - [removed_trace_no_redel] after the redelegations the hub sends no further redelegation;
@@ -102,8 +102,8 @@ Lemma call_reg w s gm f :
   (do x <- w_reg w; do r <- reg_execute w x s gm; Some (set_reg w (fst r), snd r)).
 Proof. reflexivity. Qed.
 
-(** the UpdateGlobalIndex tree of C19 is small: hub handler, at most 14 messages of withdrawals and
-    swap leg, at most 17 messages of dispatch leg.  (Same construction as
+(** the UpdateGlobalIndex tree of C19 is small: hub handler, at most 18 messages of withdrawals
+    (one per chain validator, [length VALS] = 12) and swap leg, at most 21 messages of dispatch leg.  (Same construction as
     [IndexP.update_global_index_effect], keeping the message count that theorem forgets.) *)
 Lemma ugi_exec w sender h r dp g tb ts :
   Wired w -> RewardWired w -> RewardsToDispatcher w -> IndexWiring w -> StubsOk (w_env w) ->
@@ -113,7 +113,7 @@ Lemma ugi_exec w sender h r dp g tb ts :
   (forall w1, pre_dispatch w sender = Some w1 ->
      bal (w_env w1) A_disp (dp_bd dp) <= LIM /\ bal (w_env w1) A_disp usei <= LIM /\
      ~ Known_F2 (dp_rate dp) (bal (w_env w1) A_disp (dp_bd dp)) (bal (w_env w1) A_disp usei)) ->
-  exists w' n, Exec w [(sender, root_msg)] w' n /\ (n <= 32)%nat.
+  exists w' n, Exec w [(sender, root_msg)] w' n /\ (n <= 40)%nat.
 Proof.
   intros HW HRW HRD HIW HST HE1 HSol HRdy Hwh Hwr Hwd Hwg Hwb Hws HX.
   destruct (Wired_inv w HW) as (h_ & r_ & d_ & g_ & tb_ & ts_ & A1 & A2 & A3 & A4 & A5 & A6 & Hcd & Hcr & Hcb & Hcs &
@@ -585,7 +585,7 @@ Proof.
     apply sort_asc_query_vals in A. exact A. }
   assert (Hnin : ~ In v (rg_vals g')).
   { intros Hi. apply remove_val_In in Hi. destruct Hi as [_ Hi]. congruence. }
-  assert (Hk : (length redels <= 8)%nat).
+  assert (Hk : (length redels <= 12)%nat).
   { eapply Nat.le_trans; [apply redels_of_length|]. unfold vals.
     pose proof (vals_facts w g' Hok' Hgh Hdel) as F. cbn zeta in F. tauto. }
   rewrite <- Hown in Hreg.
